@@ -203,7 +203,7 @@ def el(a, *i):
 
 
 def ln(a, j=0):
-    return a.obj.shape[j]
+    return a.obj.shape[j]  # (j = -1: last axis)
 
 
 def vsizes(c):
@@ -219,24 +219,21 @@ def vsize(t):
 
 
 def all_names(c) -> Seq:
-    """The effective sequence of all names: the argument, or the variables of the design space when it is empty."""
+    """The effective sequence of all names: the explicit argument, or the variables of the design space for the default ``()``."""
     d = dsvars(c)
     v = c.arg("all_data_names")
     if isinstance(v, tuple) and not v:
         return Seq(d.n, d.keys)
-    s = seq_of(c, c.old, "all_data_names")
-    return Seq(eff_n(s.n, d.n), eff_a(s.n, s.a, d.keys))
+    return seq_of(c, c.old, "all_data_names")
 
 
-eff_n = z3.Function("c17_eff_n", INT, INT, INT)
-eff_a = z3.Function("c17_eff_names", INT, NAMES, NAMES, NAMES)
-
-
-def eff_axioms():
-    """Definitions (macros): a non-empty argument is used as it is, an empty one stands for the design space's variables."""
-    n, dn, a, dk = z3.Int("n!ef"), z3.Int("dn!ef"), z3.Const("a!ef", NAMES), z3.Const("dk!ef", NAMES)
-    return [("def:effective-length", z3.ForAll([n, dn], eff_n(n, dn) == z3.If(n == 0, dn, n), patterns=[eff_n(n, dn)])),
-            ("def:effective-names", z3.ForAll([n, a, dk], eff_a(n, a, dk) == z3.If(n == 0, dk, a), patterns=[eff_a(n, a, dk)]))]
+def explicit_nonempty(c):
+    """An explicit list of all names is not empty (every call site passes the default ``()`` or a non-empty list; an empty list
+    would stand for the default as well)."""
+    v = c.arg("all_data_names")
+    if isinstance(v, tuple) and not v:
+        return []
+    return [("explicit-all-names-not-empty", seq_of(c, c.old, "all_data_names").n >= 1)]
 
 
 def ds_consistent(c):
@@ -294,14 +291,14 @@ class GetXMask(Contract):
 
     def requires(self, c):
         m, a = seq_of(c, c.old, "masking_data_names"), all_names(c)
-        return [("all-names-distinct", distinct(a)), ("all-names-have-sizes", sized(a, vsizes(c))),
+        return explicit_nonempty(c) + [("all-names-distinct", distinct(a)), ("all-names-have-sizes", sized(a, vsizes(c))),
                 ("design-space-sizes-consistent", ds_consistent(c)), ("sizes-positive", _ds_sizes_positive(c)),
                 ("masking-names-in-design-space", within(m, dsvars(c).member))]
 
     def axioms(self, c):
         m, a = seq_of(c, c.old, "masking_data_names"), all_names(c)
         sz = vsizes(c).vals
-        return off_axioms() + eff_axioms() + [distinct_inj(a), ("lemma:off-monotone(masking)", off_mono(m, sz)), ("lemma:off-monotone(all)", off_mono(a, sz)),
+        return off_axioms() + [distinct_inj(a), ("lemma:off-monotone(masking)", off_mono(m, sz)), ("lemma:off-monotone(all)", off_mono(a, sz)),
                                              ("lemma:psum-bridge", psum_bridge(m, sz))]
 
     def ensures(self, c):
@@ -309,6 +306,14 @@ class GetXMask(Contract):
         sz = vsizes(c).vals
         return [("length", ln(c.result) == off(m.a, sz, m.n)), ("ranges", mask_ranges(c.result.obj.elems, m, a, sz, m.n)),
                 ("in-range", mask_in_range(c.result.obj.elems, off(m.a, sz, m.n), off(a.a, sz, a.n)))]
+
+
+@register
+class GetXMaskDefault(GetXMask):
+    """Same contract for the default all_data_names = (): all names = the variables of the design space."""
+
+    variant = "default"
+    params = {"masking_data_names": TList(TStr)}
 
 
 def _ds_sizes_positive(c):
@@ -371,3 +376,481 @@ class MaskXSwapOrder(Contract):
         sz = vsizes(c).vals
         return [("length", ln(c.result) == off(m.a, sz, m.n)), ("gathered", gathered(c.result.obj.elems, c.old.x_vect.obj.elems, m, a, sz)),
                 ("fresh-result", z3.BoolVal(c.result.ref.id != c.old.x_vect.ref.id))]
+
+
+@register
+class MaskXSwapOrderDefault(MaskXSwapOrder):
+    variant = "default"
+    params = {"masking_data_names": TList(TStr), "x_vect": F1}
+
+
+# ---------------------------------------------------------------------------- unmask_x_swap_order
+mem_of = z3.Function("c17_members", NAMES, INT, MEMS)
+wit_of = z3.Function("c17_member_index", NAMES, INT, STR, INT)
+
+
+def mem_axioms(m: Seq):
+    """Definition of the set of the names of a sequence (with a choice function for the index of a member)."""
+    i = z3.Int("i!me")
+    x = z3.Const("x!me", STR)
+    M = mem_of(m.a, m.n)
+    w = wit_of(m.a, m.n, x)
+    return [("def:members(elements)", z3.ForAll([i], z3.Implies(z3.And(0 <= i, i < m.n), M[m.a[i]]), patterns=[m.a[i]])),
+            ("def:members(only)", z3.ForAll([x], z3.Implies(M[x], z3.And(0 <= w, w < m.n, m.a[w] == x)), patterns=[M[x]]))]
+
+
+def offm_mono(s: Seq, sz, M):
+    """With non-negative sizes every consumed chunk lies within [0, offm(n)) (instances of lemma offm-monotone, by induction)."""
+    i = z3.Int("i!mm")
+    return z3.Implies(nonneg_sizes(s, sz),
+                      z3.And(offm(s.a, sz, M, s.n) >= 0,
+                             z3.ForAll([i], z3.Implies(z3.And(0 <= i, i < s.n), z3.And(0 <= offm(s.a, sz, M, i),
+                                                                                        offm(s.a, sz, M, i) + z3.If(M[s.a[i]], sz[s.a[i]], 0) <= offm(s.a, sz, M, s.n))),
+                                       patterns=[offm(s.a, sz, M, i)])))
+
+
+def _rows(arr):
+    """Leading index variables and their range for a rank-1 / rank-2 array view."""
+    if arr.obj.rank == 1:
+        return [], []
+    r = z3.Int("r!row")
+    return [r], [0 <= r, r < arr.obj.shape[0]]
+
+
+def unmasked(res, xm, xfull, a: Seq, m: Seq, sz, upto):
+    """Scatter: the chunk of the j-th name of a (j < upto) holds the next unread chunk of xm when the name is a masking name
+    (chunks are consumed in the order of a), the default (zero or x_full) otherwise."""
+    j, p = z3.Int("j!um"), z3.Int("p!um")
+    M = mem_of(m.a, m.n)
+    rv, rr = _rows(xm)
+    base = (z3.RealVal(0) if xfull is None else at(xfull.obj.elems, *rv, p))
+    src = at(xm.obj.elems, *rv, offm(a.a, sz, M, j) + (p - off(a.a, sz, j)))
+    tgt = at(res.obj.elems, *rv, p)
+    return fa_multi([j, p] + rv, z3.Implies(z3.And(0 <= j, j < upto, off(a.a, sz, j) <= p, p < off(a.a, sz, j) + sz[a.a[j]], *rr),
+                                            tgt == z3.If(M[a.a[j]], src, base)), a.a[j], tgt)
+
+
+def untouched_from(res, xm, xfull, lo):
+    p = z3.Int("p!ut")
+    rv, rr = _rows(xm)
+    base = (z3.RealVal(0) if xfull is None else at(xfull.obj.elems, *rv, p))
+    tgt = at(res.obj.elems, *rv, p)
+    return fa_multi([p] + rv, z3.Implies(z3.And(lo <= p, p < res.obj.shape[-1], *rr), tgt == base), tgt)
+
+
+def _xfull(c):
+    v = c.arg("x_full")
+    return None if v is None else c.old.x_full
+
+
+def _unmask_inv(c, k):
+    m, a = seq_of(c, c.old, "masking_data_names"), all_names(c)
+    sz = vsizes(c).vals
+    M = mem_of(m.a, m.n)
+    res, xm, xf = c.locals["x_unmask"], c.old.x_masked, _xfull(c)
+    return [("consumed", c.locals["i_x"] == offm(a.a, sz, M, k)), ("nonneg", z3.And(off(a.a, sz, k) >= 0, offm(a.a, sz, M, k) >= 0)),
+            ("prefix-below", prefix_below(a, sz, k)),
+            ("shape", z3.And(ln(res, -1) == off(a.a, sz, a.n), *([ln(res, 0) == ln(xm, 0)] if xm.obj.rank == 2 else []))),
+            ("done", unmasked(res, xm, xf, a, m, sz, k)), ("rest-untouched", untouched_from(res, xm, xf, off(a.a, sz, k)))]
+
+
+class _Unmask(Contract):
+    """Scatter of the chunks of x_masked (consumed in the order of all names) into zeros / a copy of x_full."""
+
+    targets = (BF + ".unmask_x_swap_order",)
+    prop = ("C17",)
+    numpy = "precise"
+    np_c17 = True
+    frame_arrays = True
+    loops = {0: LoopSpec(anchor="all_data_names", inv=_unmask_inv, modifies=("x_unmask",))}
+
+    def requires(self, c):
+        m, a = seq_of(c, c.old, "masking_data_names"), all_names(c)
+        sz = vsizes(c).vals
+        xm, xf = c.old.x_masked, _xfull(c)
+        out = explicit_nonempty(c) + [("all-names-distinct", distinct(a)), ("all-names-have-sizes", sized(a, vsizes(c))),
+                                      ("design-space-sizes-consistent", ds_consistent(c)), ("sizes-positive", _ds_sizes_positive(c)),
+                                      ("enough-masked-components", ln(xm, -1) >= offm(a.a, sz, mem_of(m.a, m.n), a.n))]
+        if xf is not None:
+            out.append(("x_full-has-the-full-dimension", z3.And(ln(xf, -1) == off(a.a, sz, a.n), *([ln(xf, 0) == ln(xm, 0)] if xm.obj.rank == 2 else []))))
+        return out
+
+    def axioms(self, c):
+        m, a = seq_of(c, c.old, "masking_data_names"), all_names(c)
+        sz = vsizes(c).vals
+        M = mem_of(m.a, m.n)
+        return off_axioms() + offm_axioms() + mem_axioms(m) + [distinct_inj(a), ("lemma:off-monotone(all)", off_mono(a, sz)), ("lemma:offm-monotone", offm_mono(a, sz, M)),
+                                                               ("lemma:psum-bridge", psum_bridge(a, sz))]
+
+    def ensures(self, c):
+        m, a = seq_of(c, c.old, "masking_data_names"), all_names(c)
+        sz = vsizes(c).vals
+        res, xm, xf = c.result, c.old.x_masked, _xfull(c)
+        out = [("shape", z3.And(ln(res, -1) == off(a.a, sz, a.n), *([ln(res, 0) == ln(xm, 0)] if xm.obj.rank == 2 else []))),
+               ("scattered", unmasked(res, xm, xf, a, m, sz, a.n)),
+               ("fresh-result", z3.BoolVal(res.ref.id != xm.ref.id and (xf is None or res.ref.id != xf.ref.id)))]
+        return out
+
+
+def _unmask_variant(name, params, returns):
+    cls = type("Unmask_" + (name or "explicit"), (_Unmask,), {"params": params, "returns": returns, **({"variant": name} if name else {})})
+    return register(cls)
+
+
+NAMES_T = TList(TStr)
+_unmask_variant(None, {"masking_data_names": NAMES_T, "x_masked": F1, "all_data_names": NAMES_T}, F1)
+_unmask_variant("default", {"masking_data_names": NAMES_T, "x_masked": F1}, F1)
+_unmask_variant("x_full", {"masking_data_names": NAMES_T, "x_masked": F1, "all_data_names": NAMES_T, "x_full": F1}, F1)
+_unmask_variant("default-x_full", {"masking_data_names": NAMES_T, "x_masked": F1, "x_full": F1}, F1)
+_unmask_variant("matrix", {"masking_data_names": NAMES_T, "x_masked": F2, "all_data_names": NAMES_T}, F2)
+_unmask_variant("default-matrix", {"masking_data_names": NAMES_T, "x_masked": F2}, F2)
+
+
+# ---------------------------------------------------------------------------- lemmas (pure SMT): inductions behind the assumed facts, inverse maps
+class _FakeArr:
+    """A rank-1 real array given by plain z3 terms, shaped like the views the spec functions take."""
+
+    class _O:
+        rank = 1
+
+    def __init__(self, name, n):
+        self.obj = _FakeArr._O()
+        self.obj.elems = z3.Const(name, z3.ArraySort(INT, z3.RealSort()))
+        self.obj.shape = (n,)
+
+
+def _ax(pairs):
+    return z3.And(*[f for _, f in pairs])
+
+
+def sublist_same_order(m: Seq, a: Seq, e):
+    """m is the sub-list of a selected by the strictly increasing index map e (hence duplicate-free when a is)."""
+    u, v = z3.Int("u!so"), z3.Int("v!so")
+    return z3.And(m.n >= 0, a.n >= 0,
+                  z3.ForAll([u], z3.Implies(z3.And(0 <= u, u < m.n), z3.And(0 <= e[u], e[u] < a.n, a.a[e[u]] == m.a[u])), patterns=[e[u], m.a[u]]),
+                  z3.ForAll([u, v], z3.Implies(z3.And(0 <= u, u < v, v < m.n), e[u] < e[v]), patterns=[z3.MultiPattern(e[u], e[v])]))
+
+
+def no_member_between(a: Seq, sz, M):
+    """L1 (by induction on hi): offm does not move over a stretch of names that are not masking names."""
+    lo, hi, j = z3.Int("lo!nb"), z3.Int("hi!nb"), z3.Int("j!nb")
+    return z3.ForAll([lo, hi], z3.Implies(z3.And(0 <= lo, lo <= hi, z3.ForAll([j], z3.Implies(z3.And(lo <= j, j < hi), z3.Not(M[a.a[j]])), patterns=[a.a[j]])),
+                                          offm(a.a, sz, M, hi) == offm(a.a, sz, M, lo)), patterns=[z3.MultiPattern(offm(a.a, sz, M, lo), offm(a.a, sz, M, hi))])
+
+
+def consumed_is_offset(m: Seq, a: Seq, sz, e):
+    """K (by induction on i): when the e(i)-th name of a is reached, exactly the chunks of m[0..i) have been consumed; all of m at the end."""
+    i = z3.Int("i!ko")
+    M = mem_of(m.a, m.n)
+    return z3.And(z3.ForAll([i], z3.Implies(z3.And(0 <= i, i < m.n), offm(a.a, sz, M, e[i]) == off(m.a, sz, i)), patterns=[e[i]]),
+                  offm(a.a, sz, M, a.n) == off(m.a, sz, m.n))
+
+
+@register
+class OffsetLemmas(Contract):
+    """Inductions (base + step) behind the facts about off / offm / psum_i assumed in the contracts above, and the two inverse lemmas
+    mask(unmask(y)) = y, unmask(mask(x), x_full = x) = x for a duplicate-free sub-list in the same order."""
+
+    targets = ()
+    prop = ("C17",)
+    lemma = True
+
+    def lemmas(self):
+        a, m = Seq(z3.Int("nA"), z3.Const("a", NAMES)), Seq(z3.Int("nM"), z3.Const("m", NAMES))
+        sz, Mx = z3.Const("sz", SIZES), z3.Const("Mx", MEMS)
+        k, i, j, lo, hi = z3.Ints("k i j lo hi")
+        e = z3.Const("e", z3.ArraySort(INT, INT))
+        A = z3.Const("A", z3.ArraySort(INT, INT))
+        AX = z3.And(_ax(off_axioms()), _ax(offm_axioms()))
+        nonneg = nonneg_sizes(a, sz)
+        out = []
+        # --- off-monotone: P(k) = forall i <= k. off(i) <= off(k)
+        P = lambda t: z3.ForAll([i], z3.Implies(z3.And(0 <= i, i <= t), off(a.a, sz, i) <= off(a.a, sz, t)), patterns=[off(a.a, sz, i)])  # noqa: E731
+        out += [("off-monotone:base", z3.Implies(AX, P(z3.IntVal(0)))),
+                ("off-monotone:step", z3.Implies(z3.And(AX, nonneg, 0 <= k, k < a.n, P(k)), P(k + 1))),
+                ("off-monotone:instances", z3.Implies(z3.And(AX, a.n >= 0, z3.ForAll([k], z3.Implies(z3.And(0 <= k, k <= a.n), P(k)), patterns=[off(a.a, sz, k)]),
+                                                             off(a.a, sz, a.n) == off(a.a, sz, a.n)), off_mono(a, sz)))]
+        # --- offm-monotone
+        Q = lambda t: z3.ForAll([i], z3.Implies(z3.And(0 <= i, i <= t), offm(a.a, sz, Mx, i) <= offm(a.a, sz, Mx, t)), patterns=[offm(a.a, sz, Mx, i)])  # noqa: E731
+        out += [("offm-monotone:base", z3.Implies(AX, Q(z3.IntVal(0)))),
+                ("offm-monotone:step", z3.Implies(z3.And(AX, nonneg, 0 <= k, k < a.n, Q(k)), Q(k + 1))),
+                ("offm-monotone:instances", z3.Implies(z3.And(AX, a.n >= 0, z3.ForAll([k], z3.Implies(z3.And(0 <= k, k <= a.n), Q(k)), patterns=[offm(a.a, sz, Mx, k)])),
+                                                       offm_mono(a, sz, Mx)))]
+        # --- psum-bridge: sum of the sizes along the names = off
+        from pyvc.plug_np_c17 import psum_axioms
+
+        PS = z3.And(*psum_axioms())
+        out += [("psum-bridge:base", z3.Implies(z3.And(AX, PS), psum_i(A, 0) == off(a.a, sz, 0))),
+                ("psum-bridge:step", z3.Implies(z3.And(AX, PS, 0 <= k, psum_i(A, k) == off(a.a, sz, k), A[k] == sz[a.a[k]]), psum_i(A, k + 1) == off(a.a, sz, k + 1)))]
+        # --- L1: no member between lo and hi => offm(hi) = offm(lo)   (induction on hi)
+        stretch = lambda h: z3.ForAll([j], z3.Implies(z3.And(lo <= j, j < h), z3.Not(Mx[a.a[j]])), patterns=[a.a[j]])  # noqa: E731
+        out += [("no-member-between:step", z3.Implies(z3.And(AX, 0 <= lo, lo <= hi, stretch(hi + 1), z3.Implies(stretch(hi), offm(a.a, sz, Mx, hi) == offm(a.a, sz, Mx, lo))),
+                                                      offm(a.a, sz, Mx, hi + 1) == offm(a.a, sz, Mx, lo)))]
+        # --- K: consumed = offset in m, under the sub-list precondition
+        M = mem_of(m.a, m.n)
+        ctx = z3.And(AX, _ax(mem_axioms(m)), distinct(a), distinct_inj(a)[1], sublist_same_order(m, a, e), no_member_between(a, sz, M))
+        nxt = z3.Int("next")  # names the term offm(.., e[i] + 1) for the provers
+        out += [("consumed-is-offset:base", z3.Implies(z3.And(ctx, m.n >= 1, offm(a.a, sz, M, 0) == 0), offm(a.a, sz, M, e[0]) == off(m.a, sz, 0))),
+                ("consumed-is-offset:step", z3.Implies(z3.And(ctx, 0 <= i, i + 1 < m.n, offm(a.a, sz, M, e[i]) == off(m.a, sz, i), nxt == offm(a.a, sz, M, e[i] + 1),
+                                                              off(m.a, sz, i + 1) == off(m.a, sz, i + 1)),
+                                                       offm(a.a, sz, M, e[i + 1]) == off(m.a, sz, i + 1))),
+                ("consumed-is-offset:end", z3.Implies(z3.And(ctx, m.n >= 1, offm(a.a, sz, M, e[m.n - 1]) == off(m.a, sz, m.n - 1), nxt == offm(a.a, sz, M, e[m.n - 1] + 1),
+                                                             off(m.a, sz, m.n - 1 + 1) == off(m.a, sz, m.n)),
+                                                      offm(a.a, sz, M, a.n) == off(m.a, sz, m.n))),
+                ("consumed-is-offset:empty", z3.Implies(z3.And(ctx, m.n == 0, offm(a.a, sz, M, 0) == 0, off(m.a, sz, 0) == 0), offm(a.a, sz, M, a.n) == off(m.a, sz, m.n)))]
+        # --- the inverse lemmas, over the postconditions of unmask_x_swap_order and mask_x_swap_order
+        K = consumed_is_offset(m, a, sz, e)
+        pre = z3.And(AX, _ax(mem_axioms(m)), distinct(a), distinct_inj(a)[1], sublist_same_order(m, a, e), K, sized(a, _FakeSizes(sz)))
+        y, u, r = _FakeArr("y", off(m.a, sz, m.n)), _FakeArr("u", off(a.a, sz, a.n)), _FakeArr("r", off(m.a, sz, m.n))
+        p = z3.Int("p")
+        out += [("mask-after-unmask-is-identity",
+                 z3.Implies(z3.And(pre, unmasked(u, y, None, a, m, sz, a.n), gathered(r.obj.elems, u.obj.elems, m, a, sz),
+                                   0 <= i, i < m.n, off(m.a, sz, i) <= p, p < off(m.a, sz, i) + sz[m.a[i]]),
+                            r.obj.elems[p] == y.obj.elems[p]))]
+        x, v, w = _FakeArr("x", off(a.a, sz, a.n)), _FakeArr("v", off(m.a, sz, m.n)), _FakeArr("w", off(a.a, sz, a.n))
+        out += [("unmask-after-mask-is-identity",
+                 z3.Implies(z3.And(pre, gathered(v.obj.elems, x.obj.elems, m, a, sz), unmasked(w, v, x, a, m, sz, a.n),
+                                   0 <= j, j < a.n, off(a.a, sz, j) <= p, p < off(a.a, sz, j) + sz[a.a[j]]),
+                            w.obj.elems[p] == x.obj.elems[p]))]
+        return out
+
+
+class _FakeSizes:
+    def __init__(self, sz):
+        self.vals = sz
+        self.member = z3.K(STR, z3.BoolVal(True))
+
+
+# ---------------------------------------------------------------------------- FunctionFromDiscipline: input mask, value, gradient
+from pyvc import source as S  # noqa: E402
+from pyvc.values import BoundMethod, T, TFun, TNone  # noqa: E402
+
+FFD = "gemseo.core.mdo_functions.function_from_discipline.FunctionFromDiscipline"
+DA = "gemseo.core.mdo_functions.discipline_adapter.DisciplineAdapter"
+P_ = "_FunctionFromDiscipline__"
+
+
+class _TEmptyTuple(T):
+    """A field holding the concrete empty tuple (the default `()` of all_input_names)."""
+
+    name = "EmptyTuple"
+
+    def fresh(self, st, hint):
+        return ()
+
+    def sort(self):
+        raise C.Unsupported("() has no sort")
+
+
+class _TBoundOfFormulation(T):
+    """A field holding a bound method of the formulation the function was built for (ghost field ``c17_formulation``)."""
+
+    def __init__(self, method):
+        self.method = method
+        self.name = f"Bound[{method}]"
+
+    def fresh_in(self, st, hint, owner):
+        return BoundMethod(st.heap[owner.id].fields["c17_formulation"], S.find_method(BF, self.method))
+
+    def sort(self):
+        raise C.Unsupported("bound methods cannot be stored in symbolic containers")
+
+
+ADAPTER_F = TFun("c17_adapter_value", [F1], F1)
+ADAPTER_J = TFun("c17_adapter_gradient", [F1], F1)
+adapter_f = z3.Function("c17_adapter_value", F1.sort(), F1.sort())
+adapter_j = z3.Function("c17_adapter_gradient", F1.sort(), F1.sort())
+schema(DA + "#c17", {"_func": ADAPTER_F, "_jac": ADAPTER_J, "last_eval": F1, "force_real": TBool, "dim": TInt})
+_FFD_FIELDS = {
+    "c17_formulation": TObj(BF),  # ghost: the formulation whose methods were stored at construction
+    "c17_embedding": TList(TInt),  # ghost: positions of the input names within the design space's variables
+    P_ + "input_names": TList(TStr), P_ + "all_input_names": _TEmptyTuple(),
+    P_ + "differentiated_input_names": TList(TStr), P_ + "all_differentiated_input_names": _TEmptyTuple(),
+    P_ + "get_x_mask_x_swap_order": _TBoundOfFormulation("get_x_mask_x_swap_order"),
+    P_ + "unmask_x_swap_order": _TBoundOfFormulation("unmask_x_swap_order"),
+    P_ + "discipline_adapter": TObj(DA, schema_key=DA + "#c17"),
+}
+schema(FFD + "#first", {**_FFD_FIELDS, P_ + "input_mask": TNone})
+schema(FFD + "#cached", {**_FFD_FIELDS, P_ + "input_mask": I1})
+
+
+class _F:
+    """Spec view of a FunctionFromDiscipline: its formulation, names and sizes."""
+
+    def __init__(self, s):
+        self.s = s
+        self.form = s.c17_formulation
+        d = self.form.optimization_problem.design_space._variables
+        self.d = d
+        self.a = Seq(d.n, d.keys)
+        names = getattr(s, P_ + "input_names")
+        self.m = Seq(names.n, names.elems)
+        dn = getattr(s, P_ + "differentiated_input_names")
+        self.dm = Seq(dn.n, dn.elems)
+        self.vs = self.form.variable_sizes
+        self.sz = self.vs.vals
+        self.mask = getattr(s, P_ + "input_mask")
+        self.e = s.c17_embedding.elems
+
+
+def _form_pre(f: _F):
+    """Preconditions of get_x_mask_x_swap_order(input_names, ()) on the stored formulation + the origin of the input names."""
+    k = z3.Const("k!fp", STR)
+    d, vs = f.d, f.vs
+    return [("all-names-have-sizes", sized(f.a, vs)),
+            ("design-space-sizes-consistent", forall_pat([k], z3.Implies(d.member[k], z3.And(vs.member[k], vs.vals[k] == vsize(d.vals[k]))), d.member[k])),
+            ("sizes-positive", forall_pat([k], z3.Implies(d.member[k], vsize(d.vals[k]) >= 1), d.member[k])),
+            # get_x_names_of_disc: the design variables that are inputs of the discipline, in the order of the design space
+            ("input-names-are-a-sub-list-of-the-design-variables", sublist_same_order(f.m, f.a, f.e))]
+
+
+def _mask_facts(r, f: _F):
+    return [("length", ln(r) == off(f.m.a, f.sz, f.m.n)), ("ranges", mask_ranges(r.obj.elems, f.m, f.a, f.sz, f.m.n)),
+            ("in-range", mask_in_range(r.obj.elems, off(f.m.a, f.sz, f.m.n), off(f.a.a, f.sz, f.a.n)))]
+
+
+def _ffd_axioms(f: _F):
+    return off_axioms() + offm_axioms() + mem_axioms(f.m) + [distinct_inj(f.a), ("lemma:off-monotone(all)", off_mono(f.a, f.sz)), ("lemma:off-monotone(inputs)", off_mono(f.m, f.sz)),
+                                                             ("lemma:consumed-is-offset", consumed_is_offset(f.m, f.a, f.sz, f.e))]
+
+
+def _sublist_in_ds(f: _F):
+    """Consequences of the sub-list fact stated with the triggers the callee preconditions need."""
+    j = z3.Int("j!sl")
+    return ("derived:input-names-are-design-variables", z3.ForAll([j], z3.Implies(z3.And(0 <= j, j < f.m.n), f.d.member[f.m.a[j]]), patterns=[f.m.a[j]]))
+
+
+class _InputMask(Contract):
+    targets = (FFD + "._input_mask",)
+    prop = ("C17",)
+    numpy = "precise"
+    np_c17 = True
+    frame_arrays = True
+    returns = I1
+    modifies = ("self",)
+
+    def requires(self, c):
+        f = _F(c.old.self)
+        out = _form_pre(f)
+        if f.mask is not None:
+            out += [("cached-mask:" + l, g) for l, g in _mask_facts(f.mask, f)]  # representation invariant of the cached mask
+        return out
+
+    def axioms(self, c):
+        f = _F(c.old.self)
+        return _ffd_axioms(f) + [_sublist_in_ds(f)]
+
+    def ensures(self, c):
+        f = _F(c.old.self)
+        new_mask = getattr(c.new.self, P_ + "input_mask")
+        return _mask_facts(c.result, f) + [("mask-is-cached", z3.BoolVal(new_mask.ref.id == c.result.ref.id))]
+
+
+@register
+class InputMaskFirst(_InputMask):
+    """First evaluation: the mask is computed from the input names within the design variables, and cached."""
+
+    self_schema = FFD + "#first"
+
+
+@register
+class InputMaskCached(_InputMask):
+    variant = "cached"
+    self_schema = FFD + "#cached"
+
+
+def _gathered_term(x, mask):
+    """The embedded vector x[mask] exactly as numpy's fancy indexing builds it in the model (uninterpreted functions of arrays see whole terms)."""
+    i = z3.Int("i!np0")
+    n = ln(x)
+    mk = mask.obj.elems
+    return F1.dt.mk(ln(mask), z3.Lambda([i], x.obj.elems[z3.If(mk[i] < 0, mk[i] + n, mk[i])]))
+
+
+def _arr_term(v):
+    return F1.dt.mk(ln(v), v.obj.elems)
+
+
+class _FuncToWrap(Contract):
+    """f(x_full) = f_adapter(x_full[mask]): the discipline adapter sees exactly the components of its input names, in their order."""
+
+    targets = (FFD + "._func_to_wrap",)
+    prop = ("C17",)
+    numpy = "precise"
+    np_c17 = True
+    frame_arrays = True
+    params = {"x_vect": F1}
+    returns = F1
+    modifies = ("self", "self." + P_ + "discipline_adapter")
+
+    def requires(self, c):
+        f = _F(c.old.self)
+        return _InputMask.requires(self, c) + [("vector-has-the-full-dimension", ln(c.old.x_vect) == off(f.a.a, f.sz, f.a.n))]
+
+    def axioms(self, c):
+        return _InputMask.axioms(self, c)
+
+    def ensures(self, c):
+        f = _F(c.old.self)
+        x = c.old.x_vect
+        mask = getattr(c.new.self, P_ + "input_mask")
+        g = F1.dt.mk(ln(mask), z3.Const("g!ftw", z3.ArraySort(INT, z3.RealSort())))
+        return [(f"mask:{l}", h) for l, h in _mask_facts(mask, f)] + [
+            ("value", _arr_term(c.result) == adapter_f(_gathered_term(x, mask))),
+            ("adapter-input-is-the-gather", gathered(F1.els(_gathered_term(x, mask)), x.obj.elems, f.m, f.a, f.sz)),
+            ("adapter-input-length", F1.dim(_gathered_term(x, mask)) == off(f.m.a, f.sz, f.m.n))]
+
+
+@register
+class FuncToWrapFirst(_FuncToWrap):
+    self_schema = FFD + "#first"
+
+
+@register
+class FuncToWrapCached(_FuncToWrap):
+    variant = "cached"
+    self_schema = FFD + "#cached"
+
+
+class _JacToWrap(Contract):
+    """Df = unmask(Df_adapter): the adapter's gradient components are placed at the columns of their variables, zeros elsewhere
+    (scalar output, no differentiated-input substitute: differentiated names = input names)."""
+
+    targets = (FFD + "._jac_to_wrap",)
+    prop = ("C17",)
+    numpy = "precise"
+    np_c17 = True
+    frame_arrays = True
+    params = {"x_vect": F1}
+    returns = F1
+    modifies = ("self", "self." + P_ + "discipline_adapter")
+
+    def requires(self, c):
+        f = _F(c.old.self)
+        v = z3.Const("v!jd", F1.sort())
+        return _FuncToWrap.requires(self, c) + [
+            ("differentiated-names-are-the-input-names", z3.And(f.dm.n == f.m.n, f.dm.a == f.m.a)),
+            ("adapter-gradient-has-one-component-per-input-component", z3.ForAll([v], F1.dim(adapter_j(v)) == off(f.m.a, f.sz, f.m.n), patterns=[adapter_j(v)]))]
+
+    def axioms(self, c):
+        return _InputMask.axioms(self, c)
+
+    def ensures(self, c):
+        f = _F(c.old.self)
+        x = c.old.x_vect
+        mask = getattr(c.new.self, P_ + "input_mask")
+        J = _FakeArr("unused", 0)
+        jt = adapter_j(_gathered_term(x, mask))
+        J.obj.elems, J.obj.shape = F1.els(jt), (F1.dim(jt),)
+        return [("length", ln(c.result) == off(f.a.a, f.sz, f.a.n)), ("unmasked-adapter-gradient", unmasked(c.result, J, None, f.a, f.m, f.sz, f.a.n))]
+
+
+@register
+class JacToWrapFirst(_JacToWrap):
+    self_schema = FFD + "#first"
+
+
+@register
+class JacToWrapCached(_JacToWrap):
+    variant = "cached"
+    self_schema = FFD + "#cached"
